@@ -251,6 +251,7 @@ type obs struct {
 	used           bool
 	ur             []byte
 	panicked       map[string]bool
+	touched        bool // some call wrote outside its argument or depended on the bytes around it
 }
 
 // call runs one named call, records its event and fills o. A panic is recovered and logged as out:"panic".
@@ -270,12 +271,14 @@ func (x *input) call(w *tr.Writer, name string, o *obs) {
 	case "RMW":
 		out, g := rmw(x.In)
 		o.rmwOut = out
+		o.touched = o.touched || !g
 		ev["o"], ev["g"] = tr.Ints(out), g
 	case "RE":
 		out, g := re(x.In, x.Cfg)
 		again, g2 := re(out, x.Cfg)
 		o.reOut, o.reAgain = out, again
 		o.di, o.do = unescape(x.In), unescape(out)
+		o.touched = o.touched || !(g && g2)
 		ev["o"], ev["a"], ev["di"], ev["do"], ev["g"] = tr.Ints(out), tr.Ints(again), tr.Ints(o.di), tr.Ints(o.do), g && g2
 	case "Comb":
 		c, g := comb(x.In, x.Cfg)
@@ -285,6 +288,7 @@ func (x *input) call(w *tr.Writer, name string, o *obs) {
 		s2, g4 := rmw(b)
 		_, _, _, _ = g1, g2, g3, g4 // judged by their own events; only the combined call's memory behaviour belongs here
 		o.comb, o.s1, o.s2 = c, s1, s2
+		o.touched = o.touched || !g
 		ev["c"], ev["s1"], ev["s2"], ev["g"] = tr.Ints(c), tr.Ints(s1), tr.Ints(s2), g
 	case "Esc":
 		res, g := escape(x.Lang, x.In, x.Oq, x.Mq)
@@ -295,6 +299,7 @@ func (x *input) call(w *tr.Writer, name string, o *obs) {
 			o.lx = lexHTML(doc)
 		}
 		o.res = res
+		o.touched = o.touched || !g
 		o.drb, o.dv = unescape(o.lx.rb), unescape(x.In)
 		ev["r"], ev["tk"], ev["kx"], ev["rb"], ev["drb"], ev["dv"], ev["g"] =
 			tr.Ints(res), o.lx.toks, o.lx.kx, tr.Ints(o.lx.rb), tr.Ints(o.drb), tr.Ints(o.dv), g
@@ -303,6 +308,7 @@ func (x *input) call(w *tr.Writer, name string, o *obs) {
 		doc := append(append([]byte("<a>"), res...), []byte("</a>")...)
 		o.lx = lexXML(doc)
 		o.res, o.used, o.ur = res, used, unescape(res)
+		o.touched = o.touched || !g
 		ev["r"], ev["u"], ev["ur"], ev["tk"], ev["tx"], ev["g"] = tr.Ints(res), used, tr.Ints(o.ur), o.lx.toks, tr.Ints(o.lx.tx), g
 	default:
 		panic("unknown call " + name)
